@@ -18,5 +18,5 @@ func checkC13(p *Prog, r *Report) {
 	})
 	aolListings(p, r, m, "C13")
 	checkInitGenesisCallers(p, r, "C13", "x/aol")
-	r.Floor("in-loop-decode-targets(x/aol)", checkLoopFreshDecode(p, r, "C13", func(fn *ssa.Function) bool { return InPkgs(fn, "x/aol") }), 4)
+	r.Floor("in-loop-decode-targets(x/aol)", checkLoopFreshDecode(p, r, "C13", func(fn *ssa.Function) bool { return InPkgs(fn, "x/aol") }), 2)
 }
